@@ -495,6 +495,30 @@ impl<'a, 'ast> Visit<'ast> for Impls<'a> {
                         ),
                     );
                 }
+                ImplItem::Const(c) => {
+                    // an associated constant whose type is the newtype is a value of the type:
+                    // it exists without any call of the guarded constructors at run time
+                    let ty = flat_of(&c.ty);
+                    let mut body = Body {
+                        name: self.name,
+                        ctor: false,
+                        calls: BTreeSet::new(),
+                        field: 0,
+                    };
+                    body.visit_expr(&c.expr);
+                    self.out.push(
+                        self.m,
+                        "aconst",
+                        format!(
+                            "{tr}|{st}|{}|pub={}|ty_self={}|ctor={}|calls={}",
+                            ident_str(&c.ident),
+                            b(!matches!(c.vis, Visibility::Inherited)),
+                            b(has_ident(&ty, &["Self", self.name])),
+                            b(body.ctor),
+                            join_set(&body.calls)
+                        ),
+                    );
+                }
                 ImplItem::Type(t) => {
                     let toks = flat_of(&t.ty);
                     self.out.push(
